@@ -57,7 +57,8 @@ def judge(kind, code, msg):
             ok = r[0] == "ok" and expect_ok(A.ac12_to_13(code), r[1])
             return None if ok else "%s:baro:%s" % (kind, cls(A.ac12_to_13(code)))
         if 20 <= tc <= 22:
-            ok = r[0] == "ok" and r[1] is not None and abs(r[1] - code * 3.28084) <= 1e-9 * max(1, code)
+            # metres converted to feet: the exact product, or rounded / truncated to whole feet (as the metric baro codes are)
+            ok = r[0] == "ok" and r[1] is not None and abs(r[1] - code * 3.28084) <= 1.0
             return None if ok else "%s:gnss" % kind
         if 5 <= tc <= 8 and kind == "adsb":
             ok = r == ("ok", 0)
